@@ -590,6 +590,15 @@ st!(raw_fifo_c3_ins_k0_w3, FifoT, FC, Some(3), HEAVY, 2, false, false, true, OP_
 st!(raw_fifo_c3_ins_k1_w3, FifoT, FC, Some(3), HEAVY, 2, false, false, true, OP_INSERT, 1, 3, false);
 st!(raw_fifo_c4_ins_k2_w1, FifoT, FC, Some(4), HEAVY, 2, false, false, false, OP_INSERT, 2, 1, false);
 st!(raw_fifo_c4_ins_k2_w2, FifoT, FC, Some(4), HEAVY, 2, false, false, false, OP_INSERT, 2, 2, false);
+// a genuine REPLACE with a different weight: the old copy must still be resident when the new one is linked, i.e. there is
+// room (capacity 4, usage 3) or the eviction loop stops before it reaches the old copy (k1 is the younger entry)
+st!(raw_fifo_c4_ins_k0_w1, FifoT, FC, Some(4), HEAVY, 2, false, false, true, OP_INSERT, 0, 1, false);
+st!(raw_fifo_c4_ins_k0_w0, FifoT, FC, Some(4), HEAVY, 2, false, false, true, OP_INSERT, 0, 0, false);
+st!(raw_fifo_c4_ins_k1_w2, FifoT, FC, Some(4), HEAVY, 2, false, false, true, OP_INSERT, 1, 2, false);
+st!(raw_fifo_c4_ins_k1_w3, FifoT, FC, Some(4), HEAVY, 2, false, false, true, OP_INSERT, 1, 3, false);
+st!(raw_lru_c4_ins_k0_w1, LruT, LRU_CFG, Some(4), HEAVY, 2, false, true, true, OP_INSERT, 0, 1, false);
+st!(raw_lru_c4_ins_k1_w3, LruT, LRU_CFG, Some(4), HEAVY, 2, false, true, true, OP_INSERT, 1, 3, false);
+st!(raw_sieve_c4_ins_k0_w1, SieveT, SieveConfig {}, Some(4), HEAVY, 2, false, false, true, OP_INSERT, 0, 1, false);
 st!(raw_fifo_c2_p0_ins_k0_w2, FifoT, FC, Some(2), [None; 3], 0, false, false, true, OP_INSERT, 0, 2, false);
 st!(raw_fifo_c2_p0_ins_k0_w3, FifoT, FC, Some(2), [None; 3], 0, false, false, true, OP_INSERT, 0, 3, false);
 st!(raw_fifo_c0_p0_ins_k0_w0, FifoT, FC, Some(0), [None; 3], 0, false, false, false, OP_INSERT, 0, 0, false);
